@@ -133,6 +133,10 @@ HAND_TEXTS = [
     ("deref-dyn-with-lifetime", "pub trait Ob {}\n#[derive(::educe::Educe)]\n#[educe(Deref)]\npub struct Ty<'a>(pub &'a dyn Ob);\n"
                                 "#[derive(::educe::Educe)]\n#[educe(Deref, DerefMut)]\npub struct Ty2<'a>(pub u8, #[educe(Deref, DerefMut)] pub &'a mut (dyn Ob + 'a));\n"
                                 "#[derive(::educe::Educe)]\n#[educe(Deref, DerefMut)]\npub enum Ty3<'a, 'b> {\n    V(&'a mut &'b mut (dyn Ob + Send)),\n    W { #[educe(Deref, DerefMut)] x: &'b mut (dyn Ob + Send), y: u8 },\n}\n"),
+    ("deprecated-union-field", "#[derive(::educe::Educe)]\n#[educe(Default, Clone, Copy)]\npub union Ty {\n    #[deprecated]\n    #[educe(Default = 5)]\n    pub x: u8,\n    pub y: u16,\n}\n"),
+    ("maybe-unsized-parameter-tail", "#[derive(::educe::Educe)]\n#[educe(Debug, PartialEq, Hash)]\npub struct Ty<T: ?Sized> {\n    pub a: u8,\n    pub b: T,\n}\n"
+                                     "#[derive(::educe::Educe)]\n#[educe(Debug(named_field = false), PartialEq, PartialOrd)]\npub struct Ty2<'a, T> where T: ?Sized + 'a {\n    pub a: &'a u8,\n    pub b: T,\n}\n"
+                                     "#[derive(::educe::Educe)]\n#[educe(Debug)]\npub struct Ty3<T: ?Sized>(pub u8, pub T);\n"),
     ("two-lifetimes-no-parameter", "#[derive(::educe::Educe)]\n#[educe(Debug, Clone, PartialEq, Eq, PartialOrd, Ord, Hash)]\n"
                                    "pub struct Ty<'a, 'b> {\n    pub a: &'a str,\n    pub b: &'b str,\n}\n"),
 ]
@@ -238,7 +242,7 @@ def run_cases(chk, cases, name="c01", full=False, edition15=False):
     # D2 accept/refuse
     # (definitions written through macro_rules!, or followed by a hand-written impl, cannot be fed to the in-process
     # expansion, which takes one item: rustc is their only judge)
-    d2 = B.run_inproc([(cid, text.replace("::educe::Educe", "Educe")) for cid, td, text in cases if "macro_rules!" not in text and "\nimpl" not in text and not text.startswith(("pub fn ", "pub type ", "pub struct Opaque", "pub trait "))],
+    d2 = B.run_inproc([(cid, text.replace("::educe::Educe", "Educe")) for cid, td, text in cases if "macro_rules!" not in text and "\nimpl" not in text and not text.startswith(("pub fn ", "pub type ", "pub struct Opaque", "pub trait ")) and text.count("::educe::Educe") == 1],
                       items=False, full=full)
     nb = max(1, min(NCPU, len(cases) // 40 or 1))
     shards = H.shard(cases, nb)
